@@ -67,15 +67,15 @@ def _quant(self: Interp, node, st, kind, real=False):
 _FSUM: dict = {}
 
 
-def _fsum(self: Interp, node, st):
+def _fsum(self: Interp, node, st, product=False):
     """fsum(lambda j: term(j), n) = sum of term(j) for 0 <= j < n: an uninterpreted S with S(0) = 0 and
     S(k+1) = S(k) + term(k) for all k >= 0 (definition by recursion; no induction is performed)."""
     lam, nnode = node.args
     var = lam.args.args[0].arg
     text = ast.unparse(lam.body)
     free = sorted({x.id for x in ast.walk(lam.body) if isinstance(x, ast.Name) and x.id != var})
-    key = (text, tuple((f, id(st.env.get(f))) if not isinstance(st.env.get(f), Ref)
-                       else (f, id(st.heap[st.env[f].rid])) for f in free))
+    key = (product, text, tuple((f, id(st.env.get(f))) if not isinstance(st.env.get(f), Ref)
+                                else (f, id(st.heap[st.env[f].rid])) for f in free))
     if key not in _FSUM:
         S = z3.Function(fresh_name("fsum"), z3.IntSort(), z3.RealSort())
         kz = z3.Int(fresh_name("k"))
@@ -89,7 +89,10 @@ def _fsum(self: Interp, node, st):
             st.env = saved
         inner = st.facts[nf:]
         del st.facts[nf:]
-        ax = [S(0) == 0, z3.ForAll([kz], z3.Implies(kz >= 0, S(kz + 1) == S(kz) + term))]
+        if product:
+            ax = [S(0) == 1, z3.ForAll([kz], z3.Implies(kz >= 0, S(kz + 1) == S(kz) * term))]
+        else:
+            ax = [S(0) == 0, z3.ForAll([kz], z3.Implies(kz >= 0, S(kz + 1) == S(kz) + term))]
         for f in inner:
             f = to_z3(f)
             ax.append(z3.ForAll([kz], f) if _mentions(f, kz) else f)
@@ -128,6 +131,8 @@ def call_outcomes(self: Interp, node: ast.Call, st: State):
             return [(st, _quant(self, node, st, nm[:-5], real=True), None)]
         if nm == "fsum" and len(node.args) == 2 and isinstance(node.args[0], ast.Lambda):
             return [(st, _fsum(self, node, st), None)]
+        if nm == "fprod" and len(node.args) == 2 and isinstance(node.args[0], ast.Lambda):
+            return [(st, _fsum(self, node, st, product=True), None)]
         if nm == "implies":
             a = self.truth(self.eval(node.args[0], st), st)
             if not isinstance(a, bool) and self.in_contract:
